@@ -448,6 +448,37 @@ def check_fixed(case, v: Verdict):
                 v.fail("fixed-shape-kept", cls,
                        f"multiplier=0 changed the wall: widths {np.asarray(wp2.widths).tolist()} vs "
                        f"{widths.tolist()}, offsets {np.asarray(wp2.offsets).tolist()} vs {offs.tolist()}")
+        # the same on the grid an out-of-equilibrium run adapts to the same wall: EOM._updateGrid then gives the two
+        # tails different lengths (mean free path x gamma inside, / gamma outside).  (includeOffEq is switched on for the re-mapping only.)
+        M0 = case["Ms"][0]
+        eom = eoms[M0]
+        wp = WallGo.WallParams(widths=widths.copy(), offsets=offs.copy())
+        vmid = -0.5
+        keep = (eom.includeOffEq, eom.meanFreePathScale)
+        try:
+            eom.includeOffEq = True
+            # moderately longer tails (x1.5 inside, x1.13 outside of the minimal length): the rim of the wall region
+            # keeps (almost) the node density the envelope was measured with
+            tmin = Lg * (0.5 + 1.05 * eom.grid.smoothing) / eom.grid.ratioPointsWall
+            eom.meanFreePathScale = 1.3 * tmin
+            eom._updateGrid(wp, vmid)
+        finally:
+            eom.includeOffEq, eom.meanFreePathScale = keep
+        n = len(eom.grid.xiValues)
+        res = eom._intermediatePressureResults(
+            wp, WallGo.Fields(vl), WallGo.Fields(vh), -1.0, 1.0, vmid, zero_boltzmann(eom), T, T,
+            temperatureProfileInput=np.full(n, T), velocityProfileInput=np.full(n, vmid), multiplier=0)
+        p = float(res[0])
+        eta = M0 * float(widths.min()) / Lg
+        err = abs(p - exact)
+        tol = envelope(eta, M0) * S + rounding_floor(model, cf, vl, vh, Vabs, S, M0)
+        v.checked("fixed-pressure-unequal-tails")
+        v.info["worst_err_over_tol_unequal_tails"] = max(v.info.get("worst_err_over_tol_unequal_tails", 0.0), err / tol)
+        if not np.isfinite(p) or err > tol:
+            v.fail("fixed-pressure-unequal-tails", f"family={fam} shape={cls_shape} M={M0}",
+                   f"grid with tails ({eom.grid.tailLengthInside * T:.3g}, {eom.grid.tailLengthOutside * T:.3g})/T: pressure {p!r} "
+                   f"vs V_low-V_high {exact!r}: |err|/S={err / S:.3e} > envelope {envelope(eta, M0):.3e} at eta={eta:.1f} "
+                   f"widths*T={shape['w']} offsets={shape['off']} T={T:.6g}", pressure=p, exact=exact, S=S, eta=eta)
         if case["shapes"].index(shape) < STEP_SHAPES:
             _check_step(v, eoms, case, shape, fam, model, cf, vl, vh, T, exact, widths, offs)
         for M1, M2 in ((40, 80), (60, 120)):
